@@ -75,8 +75,22 @@ impl World {
         names
     }
 
-    pub fn open_dbs(&self) -> Vec<String> {
-        self.rt.block_on(self.state.as_ref().unwrap().db_names())
+    /// The process dies: nothing is flushed, nothing is closed. A new `AppState` starts over a copy
+    /// of what the store held at that instant (the old instance is then stopped on the old copy,
+    /// where it can no longer be observed).
+    pub fn crash(&mut self) -> Vec<String> {
+        let forked = Arc::new(self.store.fork());
+        if let Some(state) = self.state.take() {
+            self.app = None;
+            self.rt.block_on(state.shutdown());
+        }
+        self.store = forked;
+        let state = self.rt.block_on(AppState::connect(self.store.clone(), options(&self.cfg))).expect("AppState::connect after crash");
+        self.app = Some(build_router(state.clone()));
+        let names = self.rt.block_on(state.db_names());
+        self.state = Some(state);
+        self.store.log.take();
+        names
     }
 
     fn subst(&self, bytes: &[u8]) -> Vec<u8> {
@@ -234,12 +248,12 @@ pub fn db_params(method: &str, pvar: &str) -> Value {
         json!({"config": {"name": name, "description": "d"}, "schema": schema(), "btree_indexes": [["score"]], "bm25_indexes": ["title", "body"]})
     };
     let mut v = match method {
-        "db.set_read_only" => json!({"read_only": false}),
+        "db.set_read_only" => json!({"read_only": pvar == "ro"}),
         "db.get_extension" | "db.remove_extension" => json!({"key": "ext_k"}),
         "db.save_extension" => json!({"key": "ext_k", "value": "ext_v"}),
         "collection.create" | "collection.ensure" => coll_def(if pvar == "fixture" { "c1" } else { "c_tmp" }),
         "collection.delete" => json!({"collection": "c_tmp"}),
-        "collection.set_read_only" => json!({"collection": "c1", "read_only": false}),
+        "collection.set_read_only" => json!({"collection": "c1", "read_only": pvar == "ro"}),
         "collection.get_extension" | "collection.remove_extension" => json!({"collection": "c1", "key": "cext_k"}),
         "collection.save_extension" => json!({"collection": "c1", "key": "cext_k", "value": 7}),
         "doc.add" => json!({"collection": "c1", "doc": {"title": "hello title", "body": "hello body text", "score": 5}}),
@@ -382,10 +396,12 @@ pub fn compare(model: &str, canon: &str, r: &Req, resp: &ImplResp) -> Option<Str
         if mw[2] != hex_str(name) {
             return Some("model dispatched for a different database than the path names".into());
         }
-        let reached = cw.len() >= 4
-            && (cw[3] == "handler" || cw[3].starts_with("handler:") || (cw[2] == "ok" && cw.get(3) == Some(&"handler")))
-            && resp.status != 401;
-        let reached = reached || (cw.len() >= 3 && cw[1] != "401" && !matches!(cw[2], "unauthorized" | "method_not_found" | "unsupported_media_type") && !canon.contains(" db:") && cw.get(3) != Some(&"body"));
+        // reached a handler = answered, and not by one of the pre-handler stages
+        let pre_handler = cw.len() < 3
+            || cw[1] == "401"
+            || matches!(cw[2], "unauthorized" | "method_not_found" | "unsupported_media_type" | "http")
+            || cw.get(3).is_some_and(|d| d.starts_with("db:") || *d == "body");
+        let reached = !pre_handler;
         if !reached {
             return Some("model reached a database handler, implementation did not".into());
         }
